@@ -89,6 +89,7 @@ OPERATIONS = [
 FILTERS = [
     {"method": "GET"},
     {"method": "post"},
+    {"method": ["get", "Delete"]},
     {"path": "/users"},
     {"name": "POST /users"},
     {"path_regex": "^/orders"},
